@@ -67,6 +67,22 @@ func main() {
 				}
 			}
 		}
+		if v.Scenario == r3name {
+			for _, c := range r3cases() {
+				if len(v.Trace) == 1 && c.String() == v.Trace[0] {
+					err := runR3(c)
+					var vv *vk.Violation
+					if errors.As(err, &vv) {
+						vv.Trace, vv.Scenario = v.Trace, v.Scenario
+						r.Report(vv)
+					} else if err != nil {
+						r.HarnessError("replay: %v", err)
+					} else {
+						vk.NoRepro()
+					}
+				}
+			}
+		}
 		for _, x := range scs {
 			if x.name == v.Scenario {
 				if err := seqx.Replay(mk(x), v.Trace); err != nil {
@@ -88,6 +104,9 @@ func main() {
 		{"R1 two nodes, writes / deliveries / restarts from empty", nil, d(4, 5)},
 		{"R2 two nodes, node 2 holds a key of its own", []string{"set 2 c"}, d(4, 6)},
 	}
+	if os.Getenv("C06_ONLY") == "R3" {
+		scs, rscs = nil, nil
+	}
 	total := len(scs) + len(rscs)
 	for i, x := range scs {
 		cfg := mk(x)
@@ -99,6 +118,7 @@ func main() {
 		cfg.Deadline = time.Now().Add(r.Left() / time.Duration(len(rscs)-i))
 		seqx.Merge(r, seqx.Explore(r, cfg))
 	}
+	recovery3Part(r)
 	r.Set("rule", "BFS over deliveries into the real ingress pipeline of one aspen kv node (kv.Open): each operation of the set delivered 1-2 times, alone or in two-op batches, in any order, interleaved with local writes of the host on a key it leases and with a subscriber attaching mid-traffic; a sentinel transaction is awaited after every step so the asynchronous pipeline and observers have drained; dedup on (stored digests and values, delivery counts); recovery part: BFS over writes/deletes through either of two real kv nodes (forwarded to the leaseholder), delivery of one node's whole state to the other, and restarts (kv.Close + kv.Open on the same engine = real start-up recovery): no record regresses, a restarted node holds every peer operation at or above its old high-water mark, after a full exchange both nodes hold identical records")
 	r.Assume("in-memory freighter mock transports and memkv; gossip emitters idle (1h interval) so that deliveries are exactly the harness's; versions of host-led operations come from the real version assigner; remote operations carry leaseholders 2 and 3")
 	r.Finish()
